@@ -19,6 +19,8 @@ CONSTANTS
   ConvHows = {"to"}
   HandleH = {"copyreg", "unitcopy"}
   PickleH = {"registry"}
+  ModVias = {"num", "ns"}
+  DefVias = {"num"}
   InBaseQ = {"km", "m"}
   InBaseS = "slim"
 INIT Init
